@@ -626,3 +626,10 @@ def str_repeat(s, n) -> Str:
     if n <= 0:
         return ''
     return str_repeat(s, n - 1) + s
+
+
+@axiom
+def bor_bound(x: Int, y: Int, n: Int):
+    """bitwise or of two n-bit numbers is an n-bit number (assumed property of the builtin `|`)"""
+    requires(n >= 0 and 0 <= x and x < pow2(n) and 0 <= y and y < pow2(n))
+    ensures(0 <= bor(x, y) and bor(x, y) < pow2(n) and bor(x, y) >= x)
